@@ -20,7 +20,7 @@ type Live struct {
 	Inconclusive bool
 	v0           int
 	gstSeen      int64
-	recovered    map[recKey]vnet.H
+	cu           catchUp
 }
 
 // recovered: proposals of a restarted node that came back to it inside a recovery message,
@@ -33,6 +33,19 @@ type recKey struct {
 }
 
 func (m *Live) catchUpRule(c *vnet.Cluster, e *vnet.Event) {
+	if m.cu.recovered == nil {
+		m.cu.recovered = map[recKey]vnet.H{}
+	}
+	m.cu.rule(&m.Base, c, e)
+}
+
+// catchUp is the rule shared by C09 and C03: a restarted node that was handed its own earlier
+// proposal for (h, v) inside a recovery message must not broadcast another proposal for (h, v).
+type catchUp struct {
+	recovered map[recKey]vnet.H
+}
+
+func (u *catchUp) rule(b *Base, c *vnet.Cluster, e *vnet.Event) {
 	if e.Node < 0 {
 		return
 	}
@@ -40,19 +53,27 @@ func (m *Live) catchUpRule(c *vnet.Cluster, e *vnet.Event) {
 	if n.Role != vnet.Honest || n.Restarts == 0 {
 		return
 	}
-	if m.recovered == nil {
-		m.recovered = map[recKey]vnet.H{}
+	if u.recovered == nil {
+		u.recovered = map[recKey]vnet.H{}
 	}
 	switch {
 	case e.Kind == vnet.KAPICall && e.API == "OnReceive" && e.P != nil && e.P.T == dbft.RecoveryMessageType:
 		rm := e.P.Body.(*vnet.RecMsg)
 		if q := rm.PrepReq; q != nil && n.D != nil && n.D.Validators != nil && int(q.Idx) == n.D.MyIndex && q.Hgt == n.D.BlockIndex && !q.Forged {
-			m.recovered[recKey{n.ID, n.Restarts, q.Hgt, q.View}] = q.Hash()
-			m.inc("own-proposals-returned-to-restarted-node")
+			u.recovered[recKey{n.ID, n.Restarts, q.Hgt, q.View}] = q.Hash()
+			b.inc("own-proposals-returned-to-restarted-node")
+		}
+	case e.Kind == vnet.KAPIRet && n.D != nil && n.D.Validators != nil && n.D.MyIndex >= 0:
+		// the proposal sits in the node's own slot again: from now on it counts as said
+		if q := payloadOf(n.D.PreparationPayloads[n.D.MyIndex]); q != nil && q.T == dbft.PrepareRequestType && q.Hgt == n.D.BlockIndex && q.View == n.D.ViewNumber {
+			k := recKey{n.ID, n.Restarts, q.Hgt, q.View}
+			if _, ok := u.recovered[k]; ok {
+				b.inc("own-proposals-readopted-by-restarted-node")
+			}
 		}
 	case e.Kind == vnet.KSend && e.P.T == dbft.PrepareRequestType:
-		if old, ok := m.recovered[recKey{n.ID, n.Restarts, e.P.Hgt, e.P.View}]; ok && old != e.P.Hash() {
-			m.fail(c, "restarted-node-ignores-recovered-proposal", "restarted n%d was handed its own proposal %s for (%d,%d) in a recovery message and nevertheless proposed another block %s for that view", n.ID, old, e.P.Hgt, e.P.View, e.P.Hash())
+		if old, ok := u.recovered[recKey{n.ID, n.Restarts, e.P.Hgt, e.P.View}]; ok && old != e.P.Hash() {
+			b.fail(c, "restarted-node-ignores-recovered-proposal", "restarted n%d was handed its own proposal %s for (%d,%d) in a recovery message and nevertheless proposed another block %s for that view", n.ID, old, e.P.Hgt, e.P.View, e.P.Hash())
 		}
 	}
 }
